@@ -75,6 +75,8 @@ impl TyCallable {
         TyCallable {
             inner: INNER
                 .get_or_init(|| {
+                    #[cfg(feature = "verif_hooks")]
+                    let _no_preempt = crate::verif_hooks::NoPreempt::enter();
                     Arc::new(TyCallableInner {
                         params: ParamSpec::any(),
                         result: Ty::any(),
